@@ -14,7 +14,10 @@ import (
 	"math/big"
 	"math/bits"
 	"math/rand"
+	"strings"
+	"sync"
 	"time"
+	_ "time/tzdata" // zones with daylight saving, whatever the machine has installed
 
 	"verifh/engine"
 
@@ -374,6 +377,7 @@ type run struct {
 	c      *cfg
 	tally  map[string]int64
 	failed map[string]bool
+	zone   *time.Location // when set, mkTime presents every instant in this zone
 }
 
 func start(k *engine.Case) (*run, func()) {
@@ -618,9 +622,33 @@ func dateCase(k *engine.Case) {
 		return
 	}
 	c := u.c
+	// date strings are values: a string returned earlier is kept (not copied) while later
+	// calls run and must still read the same and convert back to its own id
+	type heldStr struct {
+		s, copy string
+		id      int64
+	}
+	var held []heldStr
+	defer func() {
+		for _, h := range held {
+			k.Evals(1)
+			u.tally["datestr_retained_checked"]++
+			if h.s != h.copy {
+				u.fail("datestr-retained-changed", "the string CnStyle(%d) returned read %q when it was returned and reads %q after later CnStyle calls", h.id, h.copy, h.s)
+				return
+			}
+			if back, err := snowflake.FromChStyle(h.s); err != nil || back != h.id {
+				u.fail("datestr-retained-changed", "the string %q returned by CnStyle(%d) earlier now converts to (%d, %v)", h.s, h.id, back, err)
+				return
+			}
+		}
+	}()
 	for i := 0; i < batch; i++ {
 		id, ts, low := u.genID("datestr")
 		s := snowflake.CnStyle(id)
+		if len(held) < 8 {
+			held = append(held, heldStr{s: s, copy: strings.Clone(s), id: id})
+		}
 		back, err := snowflake.FromChStyle(s)
 		k.Logf("id=%d (ts=%d low=%d, %s) CnStyle=%q FromChStyle=(%d,%v)", id, ts, low, utc(c.epoch+ts), s, back, err)
 		k.Evals(1)
@@ -664,8 +692,73 @@ type probe struct {
 	why     string
 }
 
+// zones with daylight saving (the repeated hour after the fall-back is where wall-clock
+// arithmetic on an instant goes wrong); Lord Howe shifts by 30 minutes.
+var dstZoneNames = []string{"America/New_York", "Europe/Berlin", "Australia/Lord_Howe", "America/Santiago", "Europe/London"}
+
+var (
+	dstMu    sync.Mutex
+	dstZones []*time.Location
+	fallback = map[[2]int]int64{} // (zone index, year) -> unix ms of the fall-back instant, 0 = none
+)
+
+func dstZone(i int) *time.Location {
+	dstMu.Lock()
+	defer dstMu.Unlock()
+	if dstZones == nil {
+		for _, n := range dstZoneNames {
+			l, err := time.LoadLocation(n)
+			if err != nil {
+				l = nil
+			}
+			dstZones = append(dstZones, l)
+		}
+	}
+	return dstZones[i]
+}
+
+// fallbackOf returns the instant (unix ms) at which zone zi sets its clocks back in year y.
+func fallbackOf(zi, y int) int64 {
+	loc := dstZone(zi)
+	if loc == nil {
+		return 0
+	}
+	dstMu.Lock()
+	defer dstMu.Unlock()
+	if v, ok := fallback[[2]int{zi, y}]; ok {
+		return v
+	}
+	var found int64
+	t := time.Date(y, 1, 1, 0, 0, 0, 0, time.UTC)
+	_, prev := t.In(loc).Zone()
+	for h := 0; h < 366*24; h++ {
+		t = t.Add(time.Hour)
+		_, off := t.In(loc).Zone()
+		if off < prev {
+			// the change lies in (t-1h, t]: bisect to the second
+			lo, hi := t.Add(-time.Hour), t
+			for hi.Sub(lo) > time.Second {
+				mid := lo.Add(hi.Sub(lo) / 2).Truncate(time.Second)
+				if _, o := mid.In(loc).Zone(); o < prev {
+					hi = mid
+				} else {
+					lo = mid
+				}
+			}
+			found = hi.UnixMilli()
+			break
+		}
+		prev = off
+	}
+	fallback[[2]int{zi, y}] = found
+	return found
+}
+
 func (u *run) mkTime(abs, ns int64) time.Time {
 	t := time.Unix(abs/1000, (abs%1000)*1000000+ns)
+	if u.zone != nil {
+		return t.In(u.zone)
+	}
 	switch u.k.R.Intn(4) {
 	case 0:
 		return t.UTC()
@@ -799,6 +892,29 @@ func rangeCase(k *engine.Case) {
 		bTs, bCls := genTs(r, c)
 		if r.Intn(12) == 0 {
 			bTs, bCls = r.Int63n(1000), "epoch_first_second"
+		}
+		u.zone = nil
+		if r.Intn(5) == 0 {
+			// an instant in or next to the repeated hour of a zone that sets its clocks back,
+			// presented in that zone
+			zi := r.Intn(len(dstZoneNames))
+			y0, y1 := yearOf(c.epoch)+1, yearOf(c.epoch+c.maxTs)-1
+			if y1 > 2100 {
+				y1 = 2100
+			}
+			if y1 >= y0 {
+				if fb := fallbackOf(zi, y0+r.Intn(y1-y0+1)); fb != 0 {
+					d := r.Int63n(2*3600*1000+1) - 3600*1000
+					if r.Intn(4) == 0 {
+						d = []int64{0, -1, 1, -1000, 999, 3600*1000 - 1, 3600 * 1000, -3600 * 1000, 1800 * 1000}[r.Intn(9)]
+					}
+					if ts := fb + d - c.epoch; ts >= 0 && ts <= c.maxTs {
+						bTs, bCls = ts, "dst_fall_back_hour"
+						u.zone = dstZone(zi)
+						u.tally["range_zone_"+dstZoneNames[zi]]++
+					}
+				}
+			}
 		}
 		bNs := genNs(r)
 		eTs, eNs := bTs, bNs
